@@ -53,8 +53,8 @@ CallEv == /\ l \in 1 .. NRec /\ E.e = "call" /\ E.t \in Threads
           /\ l' = l + 1 /\ UNCHANGED <<ex, ord>>
 \* spec steps without a record: allocation / deletion of a private node, and the guarded loads of _tail / _head
 Silent == /\ l \in 1 .. NRec
-          /\ \E t \in Threads :      \* control steps are thread-local: only the thread of the next record needs them; guarded loads can be anybody's
-               ThreadStep(t) /\ ((last' = last /\ (E.t \in Threads => t = E.t)) \/ (last'.n = last.n + 1 /\ last'.t = t /\ last'.lab \in Unbound))
+          /\ \E t \in Threads :
+               ThreadStep(t) /\ ((last' = last) \/ (last'.n = last.n + 1 /\ last'.t = t /\ last'.lab \in Unbound))
           /\ UNCHANGED <<l, ex, ord, vmap>>
 SkipEv == /\ l \in 1 .. NRec /\ (E.t = 9 \/ E.e \in {"ret", "cfg", "quiescent", "ev", "choice"}) /\ E.e # "reset"
           /\ l' = l + 1 /\ UNCHANGED <<vars, ex, ord, vmap>>
